@@ -23,6 +23,9 @@ Record attempt := AT {
   at_site : res (option string);          (* parser.url_at(position) *)
   at_prepare : res (option string);       (* placeholder of handle_prepare_rename *)
   at_new : string;                        (* new name as typed *)
+  at_tables : list string;                (* oracle: the text of the tables of the note under the cursor as they are
+                                             written in the directory the new name puts it in (the note links of
+                                             table cells are written relative to the note, like all others) *)
   at_result : res rresult;                (* handle_rename *)
   at_after : option (list after_note)     (* files after applying the edit; None: an operation failed *)
 }.
@@ -59,8 +62,16 @@ Definition osite_eqb (a b : res (option string)) : bool := res_eqb ostring_eqb a
 
 (* handle_rename = tlib_of_graph, then rename_core; the library is computed once per case *)
 Definition model_tlib (c : rcase) (g : graph) : res tlib := tlib_of_graph g (tables_for (rc_lib c)).
+(* the table oracle of the renamed note is the one of the place it is written to *)
+Definition moved_tables (a : attempt) (L : tlib) : tlib :=
+  match at_site a with
+  | Ok (Some u) =>
+      let k := from_rel_link_url u (key_parent (at_doc a)) in
+      map (fun n => if String.eqb (tn_key n) k then TN (tn_key n) (tn_meta n) (tn_tree n) (at_tables a) else n) L
+  | _ => L
+  end.
 Definition model_rename (c : rcase) (g : graph) (L : res tlib) (a : attempt) : res rresult :=
-  do L <- L; rename_core impl_fixes (o_of (rc_lib c)) (index_scan (gr_arena g)) L (at_doc a) (at_site a) (at_new a).
+  do L <- L; rename_core impl_fixes (o_of (rc_lib c)) (index_scan (gr_arena g)) (moved_tables a L) (at_doc a) (at_site a) (at_new a).
 
 (* the model's apply_edits on the observed operations against what the harness's editor did *)
 Definition apply_agrees (c : rcase) (a : attempt) : bool :=
@@ -146,9 +157,10 @@ Definition note_links (bs : list dblock) : list (where_ * lnk) := flat_map tlink
 Definition lnk_kind (l : lnk) := fst (fst l).
 Definition lnk_url (l : lnk) := snd (fst l).
 Definition lnk_text (l : lnk) := snd l.
-Definition lnk_is_note (l : lnk) : bool := is_note_kind (lnk_kind l).
+(* a link to a note: a wiki link whose destination is an external url (`[[http://e|t]]`) is not one - its
+   destination is compared as text, whatever directory the note moves to *)
+Definition lnk_is_note (l : lnk) : bool := is_note_kind (lnk_kind l) && is_ref_url (lnk_url l).
 Definition resolve (d : string) (l : lnk) : string := from_rel_link_url (lnk_url l) d.
-Definition raw_key (l : lnk) : string := key_from_file_name (lnk_url l).
 
 (* ---------- the property on one attempt ------------------------------------------------------------- *)
 
@@ -216,23 +228,20 @@ Section Attempt.
 
   (* ----- classifiers of one occurrence [x] (before) in note [b], for the rename of [k] ----- *)
   Definition touches (k : string) (b : bnote) (x : lnk) : bool :=
-    lnk_is_note x && (String.eqb (raw_key x) k || String.eqb (resolve (key_parent (bn_key b)) x) k).
+    lnk_is_note x && String.eqb (resolve (key_parent (bn_key b)) x) k.
   (* 2: an inline link to the note that carries a text (regular or piped) *)
   Definition k_label (k : string) (b : bnote) (wx : where_ * lnk) : bool :=
     where_eqb (fst wx) WInline && touches k b (snd wx) &&
     negb (String.eqb (lnk_kind (snd wx)) "wiki") && negb (sempty (lnk_text (snd wx))).
-  (* 3: an inline link whose raw url is not the key it resolves to, naming the note either way *)
-  Definition k_raw_url (k : string) (b : bnote) (wx : where_ * lnk) : bool :=
-    where_eqb (fst wx) WInline && touches k b (snd wx) &&
-    negb (String.eqb (raw_key (snd wx)) (resolve (key_parent (bn_key b)) (snd wx))).
+  (* (3, F-C08-rawurl - an inline link whose raw url is not the key it resolves to - is repaired: the graph
+     holds an inline note link by the key it names from the note's directory, so it is retargeted exactly
+     when it resolves to the renamed note and titled by the note it resolves to) *)
   (* 4: a link to the note inside a table cell *)
   Definition k_table (k : string) (b : bnote) (wx : where_ * lnk) : bool :=
     where_eqb (fst wx) WTable && touches k b (snd wx).
-  (* 7b: the note moves to another directory: inline and table-cell links of the moved note, and
-     inline links to it, are written without regard to the directory they are read from *)
-  Definition k_moves_dir (k : string) (b : bnote) (wx : where_ * lnk) : bool :=
-    negb (String.eqb (key_parent newk) (key_parent k)) && negb (where_eqb (fst wx) WBlock) && lnk_is_note (snd wx) &&
-    (String.eqb (bn_key b) k || touches k b (snd wx)).
+  (* (7b, the second half of F-C08-newname - the note moves to another directory and its inline and
+     table-cell links, and inline links to it, were written without regard to the directory they are read
+     from - is repaired: the projector writes every inline note link relative to the note it is written into) *)
   (* 10: the note is outside the format-safe class of C01/C02/C06/C07 *)
   Definition k_unsafe (b : bnote) : bool := negb (format_safe (bn_blocks b) && lib_titles_plain).
 
@@ -243,15 +252,9 @@ Section Attempt.
     existsb (fun wx => k_label k b wx && String.eqb (lnk_kind (snd wx)) "piped") (note_links (bn_blocks b)).
 
   Definition occ_class_target (k : string) (b : bnote) (wx : where_ * lnk) : option N :=
-    first_class [(k_table k b wx, 4%N); (k_raw_url k b wx, 3%N); (k_moves_dir k b wx, 7%N);
-                 (k_piped_label k b, 2%N); (k_unsafe b, 10%N)].
-  (* 3, for texts: formatting refreshes the text of an inline or table-cell link from the title
-     of its raw-url key, which in a sub-directory is another note than the one it resolves to *)
-  Definition k_raw_title (b : bnote) (wx : where_ * lnk) : bool :=
-    negb (where_eqb (fst wx) WBlock) && lnk_is_note (snd wx) &&
-    negb (String.eqb (raw_key (snd wx)) (resolve (key_parent (bn_key b)) (snd wx))).
+    first_class [(k_table k b wx, 4%N); (k_piped_label k b, 2%N); (k_unsafe b, 10%N)].
   Definition occ_class_text (k : string) (b : bnote) (wx : where_ * lnk) : option N :=
-    first_class [(k_label k b wx, 2%N); (k_piped_label k b, 2%N); (k_raw_title b wx, 3%N); (k_unsafe b, 10%N)].
+    first_class [(k_label k b wx, 2%N); (k_piped_label k b, 2%N); (k_unsafe b, 10%N)].
 
   (* one occurrence before (in directory d) and after (in directory d') *)
   Definition target_ok (k d d' : string) (x y : lnk) : bool :=
@@ -307,8 +310,6 @@ Section Attempt.
                       else negb (Nat.eqb (length bs') 0) || Nat.eqb (length (bn_blocks b)) 0) 5
                      (first_class [(existsb (k_label k b) ls && existsb (fun wx => String.eqb (lnk_kind (snd wx)) "piped" && k_label k b wx) ls, 2%N);
                                    (existsb (k_table k b) ls, 4%N);
-                                   (existsb (k_raw_url k b) ls, 3%N);
-                                   (existsb (k_moves_dir k b) ls, 7%N);
                                    (k_unsafe b, 10%N)])
            else []) ++
           (* 6 / 7: occurrence by occurrence *)
@@ -319,8 +320,7 @@ Section Attempt.
            else [(6%N, first_class [(k_piped_label k b, 2%N); (k_unsafe b, 10%N)])]) ++
           (* 8: a note without any link to k is byte-identical *)
           (if is_moved || existsb (fun wx => lnk_is_note (snd wx) && String.eqb (resolve d (snd wx)) k) ls then []
-           else fail_if (String.eqb (snd (fst n)) (bn_text b)) 8
-                        (first_class [(existsb (k_raw_url k b) ls, 3%N)]))) pairs
+           else fail_if (String.eqb (snd (fst n)) (bn_text b)) 8 None)) pairs
     | _, _ => [(4%N, call_class)]
     end.
 
@@ -372,7 +372,7 @@ Definition debug_occ (c : rcase) (a : attempt) :=
                     | Some (_, bs') =>
                         let d := key_parent (bn_key b) in
                         flat_map (fun xy => let '(wx, wy) := xy in
-                          if (negb (target_ok a k d (key_parent key') (snd wx) (snd wy)) && match occ_class_target c a k b wx with None => true | _ => false end)
+                          if (negb (target_ok a k d (key_parent key') (snd wx) (snd wy)) && match occ_class_target c k b wx with None => true | _ => false end)
                              || (negb (text_ok c d (snd wx) (snd wy)) && match occ_class_text c k b wx with None => true | _ => false end)
                           then [(bn_key b, wx, wy)] else [])
                           (combine (note_links (bn_blocks b)) (note_links bs'))
